@@ -83,6 +83,9 @@ def units(run: Run):
     us.append((5, [g5, A.scaled(g5, 0.5)], SA[1], "l1_norm", 3, "exact5-pairs-known", 2, tuple(s for s in range(32) if A.popcount(s) == 2)))
     g6 = dict(A.larger_n_samples(6))["star+convex"]
     us.append((6, [g6], SA[1], "linf_norm", None, "exact6-small-known", 2 if quick else 3, tuple(s for s in range(64) if A.popcount(s) in (2, 3))))
+    us.append((6, [dict(A.larger_n_samples(6))["path-shift"]], SA[0], "l1_norm", None, "exact6-minimal-depth1", 1))
+    us.append((5, [A.budget_game(5, 3)], "sam_apx_1", "l1_norm", None, "budget5-3-depth2", 2))
+    us.append((5, [A.budget_game(5, 2)], "sam_apx_1", "linf_norm", 2, "budget5-2-depth2", 2))
     g7 = dict(A.larger_n_samples(7))["matching-shift"]
     us.append((7, [g7], SA[1], "l1_norm", 2, "exact7-depth1", 1))
     us.append((7, [A.budget_game(7, 2)], "sam_apx_1", "linf_norm", None, "budget7-depth1", 1))
